@@ -505,6 +505,19 @@ def run_job(job):
         with open(ini, "w", encoding="utf-8") as f:
             f.write(job.get("ini_text") or ini_text(job["inp"], job.get("ini_extra", "")))
         sheets, rowmaps = build_sheets(job)
+        if job.get("bulk"):
+            # an extra sheet rp2 never reads (not a configured asset) that makes the file larger than job["bulk"] bytes even
+            # after zip compression: base64 of a hash chain does not compress below 3/4
+            import base64
+            import hashlib
+            h, rows = hashlib.sha256(b"rp2-verif-bulk").digest(), []
+            while sum(len(r[0]) for r in rows) * 3 // 4 < job["bulk"]:
+                chunk = b""
+                while len(chunk) < 3000:
+                    h = hashlib.sha256(h).digest()
+                    chunk += h
+                rows.append([base64.b64encode(chunk).decode("ascii")])
+            sheets = dict(sheets, Notes=rows)
         l1.write_ods(ods, sheets)
         if job.get("ods_text"):
             with open(ods, "w", encoding="utf-8") as f:
